@@ -1,2 +1,30 @@
 pub mod unit;
 mod api;
+
+/// Verification hooks for the HTTP properties (feature `verif-hooks`,
+/// add-only): builds the real queue-endpoint `Processor`.
+#[cfg(feature = "verif-hooks")]
+pub mod verif_hooks_http {
+    use std::path::PathBuf;
+    use std::sync::Arc;
+
+    use tokio::sync::mpsc;
+
+    use super::api::Processor;
+    pub use super::unit::QueueEntry;
+    use crate::http::ProcessRequest;
+
+    pub fn mk_processor(
+        http_api_path: &str,
+        update_path: Option<PathBuf>,
+        queue_len: usize,
+    ) -> (Arc<dyn ProcessRequest>, mpsc::Receiver<QueueEntry>) {
+        let (tx, rx) = mpsc::channel::<QueueEntry>(queue_len);
+        let p = Processor::new(
+            Arc::new(http_api_path.to_string()),
+            update_path,
+            tx,
+        );
+        (Arc::new(p), rx)
+    }
+}
